@@ -60,7 +60,7 @@ class C04(Prop):
     ]
     rule = ("exhaustive: all sets of <= 3 orders over 3 alternatives; random profiles m<=6 against brute force "
             "(n<=6); planted single-crossing walks and one-swap perturbations up to m=12, n=16 with shuffled storage, "
-            "n<m and n>=m in equal shares; non-trivial = >= 3 orders")
+            "n<m and n>=m in equal shares; non-trivial = >= 3 orders (ids: 1..m, 0-based, shifted, sparse, near 2^31 / 2^62 / 10^18, decimal spellings that collide when concatenated, multiples of m apart); 30 % of the cases carry multiplicities and 25 % are built in two stages on one object through the append_* entry points (vote_map / order_list / order / int64 and object order_array, part of a stored order's multiplicity held back) with a query in between")
     budget = {"quick": 800, "thorough": 10000}
     anchors = [("preflibtools.properties.subdomains.ordinal.singlecrossing", n) for n in
                ("is_single_crossing", "_is_ordered_profile_single_crossing", "is_single_crossing_conflict_sets")] + \
